@@ -200,6 +200,7 @@ func dischargeAll(obs []*Oblig, dir string, timeoutS int, workers int) {
 		} else {
 			text = RenderVC(ob.Hyps, ob.Goal, true)
 		}
+		ob.hasRec = strings.Contains(text, "define-funs-rec")
 		header := fmt.Sprintf("; obligation %s\n; source %s\n; clause %s\n", ob.Name, ob.Pos, strings.ReplaceAll(ob.Src, "\n", " "))
 		if err := os.WriteFile(ob.SMT, []byte(header+text), 0o644); err != nil {
 			fatalf("write vc: %v", err)
@@ -222,9 +223,13 @@ func dischargeAll(obs []*Oblig, dir string, timeoutS int, workers int) {
 			if ob.Expect == "sat" && to > 5 {
 				to = 5
 			}
-			r := solveRace(ob.SMT, to, []string{"z3-new", "cvc5"})
-			if r.status == "unknown" && ob.Expect == "unsat" {
-				r2 := solveRace(ob.SMT, to/2+1, []string{"z3"})
+			first := []string{"z3-new", "cvc5"}
+			if ob.hasRec {
+				first = nil // recursive spec functions: race all three back ends
+			}
+			r := solveRace(ob.SMT, to, first)
+			if r.status == "unknown" && ob.Expect == "unsat" && first != nil {
+				r2 := solveRace(ob.SMT, to, []string{"z3"})
 				for k, v := range r.all {
 					r2.all[k] = v
 				}
